@@ -20,6 +20,21 @@ def sh(cmd, cwd, timeout=1800, env=None):
     return r.returncode, r.stdout
 
 
+def place_demo(wt, demo, shell_demo):
+    if shell_demo:
+        os.makedirs(os.path.join(wt, "seeded", "1"), exist_ok=True)
+        shutil.copy(demo, os.path.join(wt, "seeded", "1", "demo.sh"))
+    else:
+        shutil.copy(demo, os.path.join(wt, "tests", "seeded_demo_test.go"))
+
+
+def remove_demo(wt, shell_demo):
+    if shell_demo:
+        shutil.rmtree(os.path.join(wt, "seeded"), ignore_errors=True)
+    else:
+        os.remove(os.path.join(wt, "tests", "seeded_demo_test.go"))
+
+
 def main():
     src, name = sys.argv[1], sys.argv[2]
     props, tier, scale = None, "quick", None
@@ -38,6 +53,9 @@ def main():
         props = [meta["property"]]
     patch = os.path.join(src, "patch.diff")
     demo = os.path.join(src, "demo_test.go")
+    shell_demo = not os.path.exists(demo) and os.path.exists(os.path.join(src, "demo.sh"))
+    if shell_demo:
+        demo = os.path.join(src, "demo.sh")
     test_name = meta.get("demo_test_name", "")
     out = {"confirmed": {}}
     if inplace and subprocess.run("git -C /repo status --porcelain", shell=True, stdout=subprocess.PIPE, text=True).stdout.strip():
@@ -48,12 +66,14 @@ def main():
     os.rmdir(wt)
     rc, o = sh("git -C /repo worktree add -q --detach %s HEAD" % wt, "/")
     try:
-        shutil.copy(demo, os.path.join(wt, "tests", "seeded_demo_test.go"))
+        place_demo(wt, demo, shell_demo)
         race = "-race" if "race" in (meta.get("demo_cmd", "") + meta.get("needs_to_manifest", "")).lower() and "-race" in meta.get("demo_cmd", "") else ""
         demo_cmd = "go test -vet=off -count=1 %s -run '^%s$' ./tests/" % (race, test_name)
+        if shell_demo:
+            demo_cmd = "sh seeded/1/demo.sh"
         rc0, o0 = sh(demo_cmd, wt)
         out["confirmed"]["demo_without_patch"] = "pass" if rc0 == 0 else "FAIL"
-        os.remove(os.path.join(wt, "tests", "seeded_demo_test.go"))
+        remove_demo(wt, shell_demo)
         rc, o = sh("git apply %s" % patch, wt)
         if rc != 0:
             print("patch does not apply:\n" + o)
@@ -66,7 +86,7 @@ def main():
         out["confirmed"]["suite_with_patch"] = "pass" if rcb == 0 else "FAIL"
         if rcb != 0:
             print(ob[-3000:])
-        shutil.copy(demo, os.path.join(wt, "tests", "seeded_demo_test.go"))
+        place_demo(wt, demo, shell_demo)
         rc1, o1 = sh(demo_cmd, wt)
         if rc1 == 0 and not race:
             # concurrency demos may need several tries
@@ -80,7 +100,7 @@ def main():
         print(json.dumps(out["confirmed"], indent=1))
         ok = out["confirmed"].get("demo_without_patch") == "pass" and out["confirmed"].get("suite_with_patch") == "pass" and out["confirmed"].get("demo_with_patch") == "fail"
         results = {}
-        os.remove(os.path.join(wt, "tests", "seeded_demo_test.go"))
+        remove_demo(wt, shell_demo)
         if ok and not inplace:
             # run the checks against the patched scratch worktree (development shortcut: several seeds in parallel)
             scratch = tempfile.mkdtemp(prefix="vseed-", dir="/tmp")
@@ -124,7 +144,7 @@ def main():
     dst = os.path.join(ROOT, "seeded", name)
     os.makedirs(dst, exist_ok=True)
     shutil.copy(patch, os.path.join(dst, "patch.diff"))
-    shutil.copy(demo, os.path.join(dst, "demo_test.go"))
+    shutil.copy(demo, os.path.join(dst, os.path.basename(demo)))
     prev = {}
     if os.path.exists(os.path.join(dst, "meta.json")):
         prev = json.load(open(os.path.join(dst, "meta.json")))
